@@ -378,20 +378,22 @@ def c_longest_short(run):
 
 def c_eqr(run):
     e = _ev(run, "eqr")
-    for k, r in enumerate(e["res"]):
-        if r[1] > r[0]:
-            e["res"][k] = [r[0], r[1] - 1] if r[1] - r[0] >= 2 else [r[0] + 1, r[1] + 1]
-            return run
+    for it in e["items"]:
+        for k, r in enumerate(it["res"]):
+            if r[1] > r[0]:
+                it["res"][k] = [r[0], r[1] - 1] if r[1] - r[0] >= 2 else [r[0] + 1, r[1] + 1]
+                return run
     return None
 
 
 def c_eqr_absent(run):
     """an absent extension answered with a non-empty range"""
     e = _ev(run, "eqr")
-    for k, r in enumerate(e["res"]):
-        if r[1] <= r[0]:
-            e["res"][k] = [e["lo"], e["lo"] + 1]
-            return run
+    for it in e["items"]:
+        for k, r in enumerate(it["res"]):
+            if r[1] <= r[0]:
+                it["res"][k] = [it["lo"], it["lo"] + 1]
+                return run
     return None
 
 
@@ -473,7 +475,7 @@ def run(ctx):
         fs = _files_of(files, sub, "exh abc")
         if not fs:
             raise vlib.ToolError("binding self-test: no trace file of " + sub)
-        tests.append((fs[-1], lambda c: _rich(c, dneed) and c_da(json.loads(json.dumps(c))) is not None, c_da,
+        tests.append((fs[-1], lambda c: _rich(c, dneed, minlen=4) and c_da(json.loads(json.dumps(c))) is not None, c_da,
                       "da_match_max_length range widened by one (%s)" % sub))
     dd = dic[-1]
     tests.append((dd, lambda c: _rich(c, dneed), c_da_empty, "da_match_max_length of the empty input answered with a range"))
@@ -492,8 +494,10 @@ def run(ctx):
     tests.append((dd, lambda c: _rich(c, dneed), c_dtext, "dictionary_text differs from the text in one byte"))
     m4 = _files_of(files, "dict:min4", "exh abc")
     if m4:
-        tests.append((m4[-1], lambda c: _rich(c, dneed) and c_longest_short(json.loads(json.dumps(c))) is not None,
+        tests.append((m4[-1], lambda c: _rich(c, dneed, minlen=4) and c_longest_short(json.loads(json.dumps(c))) is not None,
                       c_longest_short, "min_pattern_length 4: a shorter longest match answered Some"))
+    if not big_ls:
+        raise vlib.ToolError("binding self-test: no trace file of sab:ls / big")
     if big_ls:
         tests.append((big_ls[0], lambda c: _ev(c, "sa_proj") is not None, c_proj, "projected case: one adjacent order violation"))
     _selftests(ctx, tests)
